@@ -302,6 +302,21 @@ pub struct Ev<'a> {
     pub fork_budget: usize,
 }
 
+/// does this text come from an identifier as it is spelt (a raw identifier keeps its `r#`)?
+pub fn keeps_raw(v: &Val) -> bool {
+    match v {
+        Val::Sym { ty, path } => ty.name() == Some("Ident") || path.ends_with(".ident") || path.ends_with("_ident"),
+        Val::Opaque { what, deps } => {
+            if what == ".unraw" { return false; }
+            if (what == ".strip_prefix" || what == ".trim_start_matches") && deps.iter().any(|d| matches!(d, Val::Str(x) if x == "r#")) { return false; }
+            if matches!(what.as_str(), "format" | ".to_string" | ".as_str" | ".unwrap_or" | ".clone" | ".to_owned" | "unwrapped" | "Some.0") { return deps.iter().any(keeps_raw); }
+            false
+        }
+        Val::Enum { args, .. } => args.iter().any(keeps_raw),
+        _ => false,
+    }
+}
+
 impl<'a> Drop for Ev<'a> {
     fn drop(&mut self) {
         if let Ok(p) = std::env::var("GENLINT_COVERAGE") { use std::io::Write; if let Ok(mut f) = std::fs::OpenOptions::new().create(true).append(true).open(p) { for q in self.entered.borrow().iter() { let _ = writeln!(f, "{q}"); } } }
@@ -956,6 +971,16 @@ impl<'a> Ev<'a> {
                     } else {
                         r.push((s, None));
                     }
+                }
+                r
+            }
+            // what `Option::map` left of a symbolic Option (kept as its 0-or-1 elements): present iff the Option was
+            Val::Rep { coll, items } if items.len() == 1 && (var == "Some" || var == "None") => {
+                let mut r = Vec::new();
+                for (s, b) in self.decide(st, &F::A(coll.clone())) {
+                    if b == (var == "Some") {
+                        if var == "Some" && sub.len() == 1 { r.extend(self.match_pat(s, sub[0], &items[0])); } else { r.push((s, Some(vec![]))); }
+                    } else { r.push((s, None)); }
                 }
                 r
             }
@@ -1803,6 +1828,10 @@ impl<'a> Ev<'a> {
             if ty == "Ident" && (last == "new" || last == "new_raw") && !vs.is_empty() {
                 let site = self.site(c.span());
                 let ok = matches!(self.deref(&s, &vs[0]), Val::Str(ref x) if !x.is_empty() && x.chars().next().map(|c| c.is_alphabetic() || c == '_').unwrap_or(false) && x.chars().all(|c| c.is_alphanumeric() || c == '_'));
+                // text taken from an identifier as it is spelt keeps the `r#` of a raw identifier, which `Ident::new` refuses (panic)
+                if last == "new" && keeps_raw(&self.deref(&s, &vs[0])) {
+                    self.unsup("rule:ES-ident-text:an identifier is made with Ident::new from the text of a user's identifier as spelt: a raw identifier (`r#type`) keeps its `r#` there and Ident::new panics, so nothing is derived for such a field / variant / type", c.span());
+                }
                 let mut s = s;
                 s.events.push(Event::Note(format!("ident-new {} {site}", if ok { "constant" } else { "computed" })));
                 r.push((s, Flow::Val(Val::opaque("call Ident::new", vs))));
@@ -2189,7 +2218,7 @@ impl<'a> Ev<'a> {
                 Val::Unit
             }
             _ => {
-                if matches!(name, "insert" | "push" | "extend" | "retain" | "remove" | "push_str" | "clear" | "truncate" | "pop" | "sort" | "dedup" | "reverse") || name.starts_with("visit_") {
+                if matches!(name, "insert" | "push" | "extend" | "retain" | "remove" | "push_str" | "clear" | "truncate" | "pop" | "sort" | "dedup" | "reverse" | "advance_to") || name.starts_with("visit_") {
                     st.events.push(Event::Note(format!("mutcall {}.{name}({})", rv.short().chars().take(80).collect::<String>(), args.iter().map(|a| a.short().chars().take(80).collect::<String>()).collect::<Vec<_>>().join(", "))));
                 }
                 let mut deps = vec![rv.clone()];
@@ -2280,6 +2309,10 @@ impl<'a> Ev<'a> {
                                             } else { break; }
                                         }
                                     }
+                                    // format_ident! removes `r#` only from arguments that are identifiers; text made from one keeps it
+                                    if name == "format_ident" && vs.iter().skip(1).any(|a| !matches!(a, Val::Sym { .. }) && keeps_raw(a)) {
+                                        self.unsup("rule:ES-ident-text:an identifier is made with format_ident! from the text of a user's identifier as spelt: a raw identifier (`r#type`) keeps its `r#` there and the macro panics, so nothing is derived for such a field / variant / type", mac.path.segments[0].ident.span());
+                                    }
                                     r.push((s2, Flow::Val(Val::opaque(name.clone(), vs))));
                                 }
                                 Err(fl) => r.push((s2, fl)),
@@ -2337,6 +2370,8 @@ impl<'a> Ev<'a> {
                 vec![(st, Flow::Div)]
             }
             "vec" => vec![(st, Flow::Val(Val::List(vec![])))],
+            // syn's token type macro: a value naming the token
+            "Token" => vec![(st, Flow::Val(Val::opaque(format!("Token![{}]", mac.tokens.to_string().replace(' ', "")), vec![])))],
             _ => { self.unsup(&format!("macro {name}!"), sp); vec![] }
         }
     }
